@@ -35,7 +35,7 @@ RULE = ("the complete C11 primitive lattice, the C10 thrift lattice (incl. paylo
 ASSUMPTIONS = ["sanitiser coverage is of the C generated from the .pyx present in the working tree",
                "memory errors that stay inside one numpy allocation are seen only through canaries",
                "unaligned little-endian loads are intended (alignment check disabled)",
-               "recovering pass: reports are deduplicated per code location within one worker process, so a "
+               "recovering pass: every cell runs in a process of its own (reports are deduplicated per code location within a process), so a "
                "location reported for one cell may stay silent for a later cell of the same worker (the halting "
                "pass has already attributed the first report of every aborted cell)",
                "uncompressed pages are slices of the file buffer: reads past such a page are visible only in "
@@ -164,7 +164,9 @@ def explore(run, tier):
             env2["ASAN_OPTIONS"] = old["ASAN_OPTIONS"].replace("abort_on_error=1", "abort_on_error=1:halt_on_error=0")
             env2["UBSAN_OPTIONS"] = old["UBSAN_OPTIONS"].replace("halt_on_error=1", "halt_on_error=0")
             run.env = env2
-            lattice("aborted-cells-recovering", aborted, "run_rec", collect=False)
+            # one process per cell: the sanitizers report a code location once per process, so in a shared worker
+            # the cell that gets a report would depend on the order of execution
+            lattice("aborted-cells-recovering", [dict(pt, _fresh=True) for pt in aborted], "run_rec", collect=False)
             run.close()
             run.extra_crashes += crashes
         finally:
